@@ -240,6 +240,27 @@ def gen_buf(r, words, maxlen):
     return bytes(b)
 
 
+def shared_atom_cases(r, count):
+    """two rules whose strings share ONE atom (hence one automaton state and one match list) with DIFFERENT backtracks: a plain
+    word, and the same word behind 1..8 low-quality bytes (00 / 20), in both declaration orders; the buffer puts the word at every
+    offset from 0 to backtrack+1, so that list entries whose backtrack exceeds the position must be SKIPPED, not end the walk"""
+    lines = []
+    for i in range(count):
+        w = bytes(r.choice(b"%PDFMZqxjkvw#@!&") for _ in range(4))
+        pad = r.randint(1, 8)
+        fill = r.choice([0x00, 0x20])
+        a = '$a = { %s %s }' % (" ".join("%02X" % c for c in w), "%02X" % r.randrange(0x30, 0x7b))
+        b = '$b = { %s %s }' % (" ".join(["%02X" % fill] * pad), " ".join("%02X" % c for c in w))
+        rules = ['rule ra { strings: %s condition: $a }' % a.replace(a.split()[-2] + " }", "}") if r.random() < 0.5 else 'rule ra { strings: $a = { %s } condition: $a }' % " ".join("%02X" % c for c in w),
+                 'rule rb { strings: %s condition: $b }' % b]
+        if i % 2:
+            rules.reverse()
+        off = r.choice(list(range(0, pad + 2)))
+        buf = bytes([0x2e]) * off + w + b"." + bytes([fill]) * pad + w + b"~"
+        lines.append("sa%d src=%s atoms=1 cands=1 actab=1 buf=%s" % (i, hx("\n".join(rules).encode()), hx(buf)))
+    return lines
+
+
 def rulesets(r, kind, tier):
     """h_scan case lines (compile only, empty buffer) dumping atoms + tables"""
     if tier == "quick":
@@ -256,6 +277,7 @@ def rulesets(r, kind, tier):
         lines.append("ab%d src=%s atoms=1 cands=1 actab=1 buf=%s" % (i, hx(src.encode()), hx(gen_buf(r, words, 24 if n > 400 else 64))))
         if zero:                                 # root matches: also the empty buffer (only the pass after the loop runs, in the root state)
             lines.append("ab%dz src=%s atoms=1 cands=1 actab=1 buf=-" % (i, hx(src.encode())))
+    lines += shared_atom_cases(r, 12 if tier == "quick" else 200)
     if tier == "quick":
         lines += sweep(r, "sw", r.choice([2, 3, 4]), r.randrange(20, 240), 260)
     else:
